@@ -48,6 +48,19 @@ fn special_receivers() -> Vec<(String, Box<dyn Fn() -> Envelope>)> {
         let m = key.encrypt(b"content".to_vec(), Some(b"not a digest".to_vec()), None::<bc_components::Nonce>);
         match Envelope::try_from(m) { Ok(bad) => base.add_assertion("p", bad), Err(_) => base.clone() }
     }))); }
+    // a signature with metadata (its object is a wrapped, signed 'Signature [metadata]' node) with parts of that object hidden
+    for which in 0..4usize {
+        let (base, sk) = (base.clone(), sk.clone());
+        out.push((format!("signed with metadata, part {} of the signature object hidden", which), Box::new(move || {
+            let s = base.add_signature_opt(&sk, None, Some(SignatureMetadata::new().with_assertion(known_values::NOTE, "a note")));
+            let sa = s.assertions_with_predicate(known_values::SIGNED)[0].clone();
+            let obj = sa.as_object().unwrap();               // wrapper [ 'signed': outer signature ]
+            let wrapper = obj.subject();                       // { Signature [ note ] }
+            let target = match which { 0 => wrapper.unwrap_envelope().unwrap_or(wrapper.clone()), 1 => wrapper.clone(), 2 => wrapper.unwrap_envelope().map(|x| x.subject()).unwrap_or(wrapper.clone()), _ => obj.assertions().first().cloned().unwrap_or(obj.clone()) };
+            s.elide_removing_target(&target)
+        })));
+    }
+    { let (base, sk) = (base.clone(), sk.clone()); out.push(("sign()ed, the wrapper's content elided".into(), Box::new(move || { let s = base.add_assertion("p", "o").sign(&sk); let inner = s.subject().unwrap_envelope().unwrap(); s.elide_removing_target(&inner) }))); }
     // 'sskrShare' objects that decode as an SSKR share but are too short / too odd to be one
     for data in [vec![], vec![1u8], vec![1u8, 2], vec![1u8, 2, 3, 4, 5], vec![0xffu8; 7], vec![0u8; 37]] {
         let (base, data) = (base.clone(), data.clone());
